@@ -88,6 +88,18 @@ Arguments inject_Z : simpl never.
 
 Ltac leaf := cbv [env find fst snd String.eqb Ascii.eqb Bool.eqb]; cbv beta iota.
 
+(* semantic comparison of two rational expressions with divisions: denominators that are equal as
+   polynomials are first made syntactically equal (so reordering commutative terms in the source is
+   harmless), then `ring` with 1/d as an atom; no side conditions (x/0 = 0 on both sides) *)
+Ltac unify_dens := repeat match goal with
+  | |- context [ Qdiv _ ?d1 ] =>
+      match goal with
+      | |- context [ Qdiv _ ?d2 ] =>
+          tryif constr_eq d1 d2 then fail else (setoid_replace d2 with d1 by ring)
+      end
+  end.
+Ltac qsem := try reflexivity; unify_dens; unfold Qdiv; ring.
+
 (* corr_disp = 1.; if (correct_disp && ishift != 0) { if (bcon_first == 3) corr_disp += 1./count_cells; if (bcon_last == 3) ... } *)
 Lemma gen_corr_disp : forall c : cfg,
   corr_disp c ==
@@ -100,13 +112,13 @@ Lemma gen_corr_disp : forall c : cfg,
 Proof.
   intros c. unfold corr_disp, L_v04_1, L_v04_2, L_v04_3. leaf.
   destruct (corrd c && adv c); [|reflexivity].
-  destruct (Z.eqb (bcf c) 3), (Z.eqb (bcl c) 3); leaf; ring.
+  destruct (Z.eqb (bcf c) 3), (Z.eqb (bcl c) 3); leaf; qsem.
 Qed.
 
 (* diffc_here = 2 * diffc_tr * timest *)
 Lemma gen_diffc_here : forall cs d t sh b1 b2 cd,
   diffc_here (mkCfg cs d t sh b1 b2 cd) == L_v05_1 (env [("diffc_tr"%string, d); ("timest"%string, t)]).
-Proof. intros. unfold diffc_here, L_v05_1. leaf. simpl. ring. Qed.
+Proof. intros. unfold diffc_here, L_v05_1. leaf. simpl. qsem. Qed.
 
 (* the two conditional updates of dav, towards the higher and towards the lower neighbour *)
 Lemma gen_dav_up : forall dav a b,
@@ -117,7 +129,7 @@ Lemma gen_dav_up : forall dav a b,
    if Qnz (disp b) then L_v01_3 (E d1) else d1).
 Proof.
   intros. unfold dav_upd, L_v01_2, L_v01_3. leaf.
-  destruct (Qnz (disp a)), (Qnz (disp b)); reflexivity.
+  destruct (Qnz (disp a)), (Qnz (disp b)); qsem.
 Qed.
 
 Lemma gen_dav_lo : forall dav a b,
@@ -128,7 +140,7 @@ Lemma gen_dav_lo : forall dav a b,
    if Qnz (disp b) then L_v01_5 (E d1) else d1).
 Proof.
   intros. unfold dav_upd, L_v01_4, L_v01_5. leaf.
-  destruct (Qnz (disp a)), (Qnz (disp b)); reflexivity.
+  destruct (Qnz (disp a)), (Qnz (disp b)); qsem.
 Qed.
 
 (* m1[i]: zero-initialised; = 2/dav (if ishift != 0 and dav); += diffc_here/(l_i*l_i + l_i*l_{i+1}); *= corr_disp *)
@@ -144,7 +156,7 @@ Lemma gen_factor_up : forall a corr dh dav cur nx,
 Proof.
   intros. unfold half_factor, disp_part, diff_part, L_v11_v08_1, L_v11_v08_2, L_v11_v08_3, L_v11_v08_4.
   cbv [fst snd]. leaf. cbv [len].
-  destruct a; [destruct (Qnz (dav_upd dav cur nx))|]; cbv [andb]; ring.
+  destruct a; [destruct (Qnz (dav_upd dav cur nx))|]; cbv [andb]; qsem.
 Qed.
 
 Lemma gen_factor_lo : forall a corr dh dav cur pv,
@@ -159,7 +171,7 @@ Lemma gen_factor_lo : forall a corr dh dav cur pv,
 Proof.
   intros. unfold half_factor, disp_part, diff_part, L_v10_v08_1, L_v10_v08_2, L_v10_v08_3, L_v10_v08_4.
   cbv [fst snd]. leaf. cbv [len].
-  destruct a; [destruct (Qnz (dav_upd dav cur pv))|]; cbv [andb]; ring.
+  destruct a; [destruct (Qnz (dav_upd dav cur pv))|]; cbv [andb]; qsem.
 Qed.
 
 (* constant boundaries: m[1] = diffc_here/(l_1*l_1) [+ disp_1/l_1 if ishift != 0]; same for m1[count_cells] *)
@@ -167,14 +179,36 @@ Lemma gen_bnd_first : forall a dh c,
   bnd_factor a dh c ==
   (let E := fun m => env [("v10[1]"%string, m); ("v05"%string, dh); ("length[1]"%string, len c); ("disp[1]"%string, disp c)] in
    let m0 := L_v10_1_1 (E 0) in if a then L_v10_1_2 (E m0) else m0).
-Proof. intros. unfold bnd_factor, L_v10_1_1, L_v10_1_2. leaf. destruct a; ring. Qed.
+Proof. intros. unfold bnd_factor, L_v10_1_1, L_v10_1_2. leaf. destruct a; qsem. Qed.
 
 Lemma gen_bnd_last : forall a dh c,
   bnd_factor a dh c ==
   (let E := fun m => env [("v11[count_cells]"%string, m); ("v05"%string, dh); ("length[count_cells]"%string, len c);
                            ("disp[count_cells]"%string, disp c)] in
    let m0 := L_v11_count_cells_1 (E 0) in if a then L_v11_count_cells_2 (E m0) else m0).
-Proof. intros. unfold bnd_factor, L_v11_count_cells_1, L_v11_count_cells_2. leaf. destruct a; ring. Qed.
+Proof. intros. unfold bnd_factor, L_v11_count_cells_1, L_v11_count_cells_2. leaf. destruct a; qsem. Qed.
+
+Lemma Qltb_compat a b c : a == b -> Qltb c a = Qltb c b.
+Proof.
+  intros H. unfold Qltb. f_equal.
+  destruct (Qle_bool a c) eqn:A; destruct (Qle_bool b c) eqn:B; auto.
+  - apply Qle_bool_iff in A. rewrite H in A. apply Qle_bool_iff in A. congruence.
+  - apply Qle_bool_iff in B. rewrite <- H in B. apply Qle_bool_iff in B. congruence.
+Qed.
+
+Lemma Qltb_compat_l a b c : a == b -> Qltb a c = Qltb b c.
+Proof.
+  intros H. unfold Qltb. f_equal.
+  destruct (Qle_bool c a) eqn:A; destruct (Qle_bool c b) eqn:B; auto.
+  - apply Qle_bool_iff in A. rewrite H in A. apply Qle_bool_iff in A. congruence.
+  - apply Qle_bool_iff in B. rewrite <- H in B. apply Qle_bool_iff in B. congruence.
+Qed.
+
+Lemma upmax_compat mx s mf v : mf == s -> v == s -> upmax mx s == (if Qltb mx mf then v else mx).
+Proof.
+  intros H1 H2. unfold upmax. rewrite (Qltb_compat mf s mx H1).
+  destruct (Qltb mx s); [symmetry; exact H2 | reflexivity].
+Qed.
 
 (* mf12 = m[.] + m1[.];  if (mf12 > maxmix) maxmix = mf12;   (three places)   maxmix starts at 0 *)
 Lemma gen_maxmix : forall mx m m1,
@@ -189,8 +223,10 @@ Lemma gen_maxmix : forall mx m m1,
     (let mf := L_v02_3 (env [("v10[count_cells]"%string, m); ("v11[count_cells]"%string, m1)]) in
      if Qltb mx mf then L_v03_4 (env [("v02"%string, mf)]) else mx).
 Proof.
-  intros. unfold upmax, sum2, L_v03_1, L_v02_1, L_v02_2, L_v02_3, L_v03_2, L_v03_3, L_v03_4. leaf.
-  repeat split; try reflexivity.
+  intros. cbv zeta.
+  split; [unfold L_v03_1; leaf; qsem|].
+  split; [|split]; apply upmax_compat;
+    unfold sum2, L_v02_1, L_v02_2, L_v02_3, L_v03_2, L_v03_3, L_v03_4; leaf; qsem.
 Qed.
 
 Lemma Qltb_inject_Z k : Qltb (inject_Z k) (2 # 1) = Z.ltb k 2.
@@ -209,20 +245,18 @@ Lemma gen_nmix : forall c mx,
    else let k := L_v09_2 (env [("v03"%string, mx)]) in
         if adv c && (Z.eqb (bcf c) 1 || Z.eqb (bcl c) 1) && Qltb k (2 # 1) then L_v09_3 (env []) else k).
 Proof.
-  intros. unfold nmix_of, L_v09_1, L_v09_2, L_v09_3. leaf.
-  destruct (Qeq_bool mx 0); [reflexivity|].
-  assert (E : (1 # 1) + inject_Z (Qfloor ((3 # 2) * mx)) == inject_Z (1 + Qfloor ((3 # 2) * mx))).
-  { rewrite inject_Z_plus. reflexivity. }
-  assert (E2 : Qltb ((1 # 1) + inject_Z (Qfloor ((3 # 2) * mx))) (2 # 1) = Z.ltb (1 + Qfloor ((3 # 2) * mx)) 2).
-  { rewrite <- Qltb_inject_Z. unfold Qltb. f_equal.
-    destruct (Qle_bool (2 # 1) ((1 # 1) + inject_Z (Qfloor ((3 # 2) * mx)))) eqn:A;
-    destruct (Qle_bool (2 # 1) (inject_Z (1 + Qfloor ((3 # 2) * mx)))) eqn:B; auto.
-    - apply Qle_bool_iff in A. rewrite E in A. apply Qle_bool_iff in A. congruence.
-    - apply Qle_bool_iff in B. rewrite <- E in B. apply Qle_bool_iff in B. congruence. }
-  rewrite E2.
+  intros. unfold nmix_of. cbv zeta.
+  destruct (Qeq_bool mx 0); [unfold L_v09_1; leaf; qsem|].
+  assert (K : L_v09_2 (env [("v03"%string, mx)]) == inject_Z (1 + Qfloor ((3 # 2) * mx))).
+  { unfold L_v09_2. leaf. rewrite inject_Z_plus.
+    match goal with
+    | |- context [ Qfloor ?t ] => try (setoid_replace t with ((3 # 2) * mx) by ring)
+    end.
+    qsem. }
+  rewrite (Qltb_compat_l _ _ (2 # 1) K), Qltb_inject_Z.
   destruct (adv c && (Z.eqb (bcf c) 1 || Z.eqb (bcl c) 1) && Z.ltb (1 + Qfloor ((3 # 2) * mx)) 2).
-  - reflexivity.
-  - symmetry. exact E.
+  - unfold L_v09_3. leaf. qsem.
+  - symmetry. exact K.
 Qed.
 
 (* m[i] /= l_nmix; m1[i] /= l_nmix; the mix structure is { i-1: m[i], i+1: m1[i], i: 1 - m[i] - m1[i] } *)
@@ -230,10 +264,31 @@ Lemma gen_divide : forall m n,
   m / n == L_v10_v08_5 (env [("v10[v08]"%string, m); ("v09"%string, n)]) /\
   m / n == L_v11_v08_5 (env [("v11[v08]"%string, m); ("v09"%string, n)]) /\
   L_return_1 (env [("v09"%string, n)]) == n.
-Proof. intros. unfold L_v10_v08_5, L_v11_v08_5, L_return_1. leaf. repeat split; reflexivity. Qed.
+Proof. intros. unfold L_v10_v08_5, L_v11_v08_5, L_return_1. leaf. repeat split; qsem. Qed.
 
 Lemma gen_mix_coefficients : forall m m1 prev c next,
   m * prev + (1 - m - m1) * c + m1 * next ==
   (let E := env [("v10[v08]"%string, m); ("v11[v08]"%string, m1)] in
    L_v13_Add_arg1_1 E * prev + L_v13_Add_arg1_3 E * c + L_v13_Add_arg1_2 E * next).
-Proof. intros. unfold L_v13_Add_arg1_1, L_v13_Add_arg1_2, L_v13_Add_arg1_3. leaf. ring. Qed.
+Proof. intros. unfold L_v13_Add_arg1_1, L_v13_Add_arg1_2, L_v13_Add_arg1_3. leaf. qsem. Qed.
+
+(* ------------------------------------------------------------------ multi_D: the element-name tests
+
+   The three places of Phreeqc::multi_D that decide which key of a solution's totals belongs to which
+   element (regenerated: Gen_C11_mcd.name_tests).  1, 2: booking a flux of element m_s[l].name on the
+   first key whose base name (up to "(") is that name - Mcd.book: String.eqb (base k) name;
+   3: the negative-total repair looks for keys of the same element - Mcd.same_element:
+   strncmp(it, kit, |base kit|) == 0 and |base kit| == |base it|  <->  base it = base kit. *)
+From IPV.Gen Require Import Gen_C11_mcd.
+
+Definition expected_name_tests : list (string * list string) := [
+  ("((strncmp(m_s[x0].name,x1.first.c_str(),x2)==0)&&(x2==x3))"%string,
+   ["(x0=0)"%string; "(x2=strlen(m_s[x0].name))"%string; "(x3=strcspn(x1.first.c_str(),'('))"%string]);
+  ("((strncmp(m_s[x0].name,x1.first.c_str(),x2)==0)&&(x2==x3))"%string,
+   ["(x0=0)"%string; "(x2=strlen(m_s[x0].name))"%string; "(x3=strcspn(x1.first.c_str(),'('))"%string]);
+  ("(!(strncmp(x0.first.c_str(),x1.first.c_str(),x2))&&(x2==strcspn(x0.first.c_str(),'(')))"%string,
+   ["(x2=strcspn(x1.first.c_str(),'('))"%string])
+].
+
+Lemma name_tests_ok : name_tests = expected_name_tests.
+Proof. vm_compute. reflexivity. Qed.
